@@ -546,12 +546,16 @@ Definition c12_ok (t : trans) : bool :=
   && forallb (fun p => negb (status_eqb (a_status (fst p)) Cancelled) || auction_eqb (fst p) (snd p)) (paired t).
 
 (* ---------------------------------------------------------------- C13 extended rounds *)
+(* comparisons of a number of end times with (maximum number of extended rounds + 1), done on N: the maximum is data
+   (a message may ask for 2^32-1 rounds) and must never be turned into a unary number *)
+Definition ends_le (n : nat) (m : N) : bool := N.leb (N.of_nat n) (m + 1).
+Definition ends_eq (n : nat) (m : N) : bool := N.eqb (m + 1) (N.of_nat n).
 Definition c13_ok (t : trans) : bool :=
   forallb (fun p =>
     let a := fst p in let a' := snd p in
     let n := length (a_ends a) in
     (* bounded, and end times only ever grow by appending *)
-    Nat.leb (length (a_ends a')) (N.to_nat (a_max_round a') + 1)
+    ends_le (length (a_ends a')) (a_max_round a')
     && list_eqb Z.eqb (a_ends a) (firstn n (a_ends a'))
     && Nat.leb (length (a_ends a')) (S n)
     && match a_type a with
@@ -562,7 +566,7 @@ Definition c13_ok (t : trans) : bool :=
              let last_len := st_mlen (t_pre t) (a_id a) in
              let cur := st_mlen (t_post t) (a_id a) in
              let must_extend :=
-               if (N.to_nat (a_max_round a) + 1 =? n)%nat then false
+               if ends_eq n (a_max_round a) then false
                else if last_len =? 0 then true
                else extend_rule cur last_len (a_rate a) in
              if must_extend then
@@ -571,7 +575,7 @@ Definition c13_ok (t : trans) : bool :=
              else settled (a_status a') && (length (a_ends a') =? n)%nat
            else (length (a_ends a') =? n)%nat
        end) (paired t)
-  && forallb (fun a' => Nat.leb (length (a_ends a')) (N.to_nat (a_max_round a') + 1) && Nat.leb 1 (length (a_ends a'))
+  && forallb (fun a' => ends_le (length (a_ends a')) (a_max_round a') && Nat.leb 1 (length (a_ends a'))
                         && N.leb (a_max_round a') MaxExtendedRound) (st_auctions (t_post t)).
 
 (* the count of matched bids that the anti-sniping rule compares with ("the matching at the previous end time") is
@@ -874,6 +878,18 @@ Definition pending_ok (s : state) : bool :=
                     else true) (st_auctions s).
 Definition c08_all (t : trans) : bool := c08_ok t && pending_ok (t_post t).
 
+(* C16 across a restart: the published records - the matched flags of the bids and the released flags of the
+   instalments - are after an export / import exactly what they were before *)
+Definition c16_genesis (t : trans) : bool :=
+  match t_op t, t_class t with
+  | OGenesis, KGenOk =>
+      forallb (fun id => list_eqb vq_eqb (vqs_of (t_pre t) id) (vqs_of (t_post t) id)
+                         && list_eqb bid_eqb (bids_of (t_pre t) id) (bids_of (t_post t) id))
+              (ids_upto (st_aseq (t_pre t) + 1))
+  | _, _ => true
+  end.
+Definition c16_all (t : trans) : bool := c16_ok t && c16_genesis t.
+
 (* C19, vesting side: whatever leaves the vesting escrow of an auction in a block is that auction's OWN due
    instalments, paid to its own auctioneer - never an instalment recorded for another auction (the release clause of
    c09_ok, read as a statement about isolation) *)
@@ -901,6 +917,6 @@ Definition c19_all (t : trans) : bool := c19_ok t && c19_release_own t.
 Definition all_checks : list (N * (trans -> bool)) :=
   [(1%N, c01_all); (2%N, c02_all); (3%N, c03_ok); (4%N, c04_all); (5%N, c05_all); (6%N, c06_ok); (7%N, c07_ok);
    (8%N, c08_all); (9%N, c09_all); (10%N, c10_ok); (11%N, c11_ok); (12%N, c12_ok); (13%N, c13_all);
-   (15%N, c15_ok); (16%N, c16_ok); (17%N, c17_ok); (18%N, c18_ok); (19%N, c19_all)].
+   (15%N, c15_ok); (16%N, c16_all); (17%N, c17_ok); (18%N, c18_ok); (19%N, c19_all)].
 Definition failing (t : trans) : list N :=
   map fst (filter (fun c => negb (snd c t)) all_checks).
